@@ -48,6 +48,20 @@ impl SharedMemoryLimiter {
     pub fn decrease_usage(&self, byte_count: usize) {
         self.current_usage.fetch_sub(byte_count, Ordering::Relaxed);
     }
+
+    /// Verification hook: the number of bytes currently accounted for.
+    #[cfg(feature = "_verif_hooks")]
+    #[must_use]
+    pub fn verif_usage(&self) -> usize {
+        self.current_usage.load(Ordering::Relaxed)
+    }
+
+    /// Verification hook: the configured limit.
+    #[cfg(feature = "_verif_hooks")]
+    #[must_use]
+    pub fn verif_max(&self) -> usize {
+        self.max
+    }
 }
 
 #[cfg(test)]
